@@ -5,6 +5,7 @@
 #include <boost/multi/adaptors/fft.hpp>
 #include <boost/multi/array_ref.hpp>
 #include <complex>
+#include <sys/mman.h>
 using namespace vk; namespace fftw = multi::fftw;
 using C = std::complex<double>;
 
@@ -45,9 +46,35 @@ static std::vector<C> ref_dft(std::vector<C> x, std::vector<L> const& n, std::ar
 static C const POISON{1e30, 1e30}, OUTFILL{-7777, 0};
 static int MAXEXT = 5;
 
+#if C15_D == 2
+// strides of 2^31 elements and more: FFTW's guru64 interface carries them as ptrdiff_t. The block is a lazily committed anonymous mapping; a few pages are touched.
+static void huge_stride_probe(Rng& g) {
+	L const cols = (L(1) << 31) + 8 * g.in(1, 3), n0 = 2, n1 = g.in(2, 4); std::size_t const total = std::size_t(n0) * std::size_t(cols) * sizeof(C); int const kind = int(g.below(3)); static char const* KN[] = {"huge-stride input", "huge-stride output", "huge-stride in-place"};
+	std::array<bool, 2> which{g.chance(1, 2), g.chance(1, 2)}; int const sign = g.chance(1, 2) ? +1 : -1; std::string const ws = std::string(which[0] ? "T" : "F") + (which[1] ? "T" : "F");
+	describe(std::string("huge-stride probe: ") + KN[kind] + " rows " + std::to_string(cols) + " elements apart, which=" + ws); sig_mix("huge-stride"); sig_mix(std::uint64_t(kind)); sig_mix(ws.c_str()); op("huge-stride:mmap");
+	void* mp = mmap(nullptr, total, PROT_READ | PROT_WRITE, MAP_PRIVATE | MAP_ANONYMOUS | MAP_NORESERVE, -1, 0); if(mp == MAP_FAILED) { count("huge-stride-probe:mapping-refused(skipped)"); return; }
+	{ C* const p = static_cast<C*>(mp); multi::array_ref<C, 2> R({n0, cols}, p); std::string const K = std::string("C15:huge-stride:") + KN[kind] + ":"; count(std::string("huge-stride-probe:") + KN[kind]);
+		std::vector<L> const n{n0, n1}; std::vector<C> x(std::size_t(n0 * n1)); for(auto& v : x) v = C(double(g.below(7)) - 3, double(g.below(5)) - 2);
+		auto y = ref_dft(x, n, which, sign); double scale = 1; for(auto const& v : x) scale = std::max(scale, std::abs(v)); double const tol = 1e-10 * double(n0 * n1) * scale; auto dir = sign == -1 ? fftw::forward : fftw::backward;
+		auto guard = [&](L i, L j) -> C& { return p[i * cols + j]; };  // columns 0 and n1+1 of each row are guards around the view R({0,2},{1,1+n1})
+		for(L i = 0; i < n0; ++i) { guard(i, 0) = POISON; guard(i, n1 + 1) = POISON; for(L j = 0; j < n1; ++j) guard(i, 1 + j) = x[std::size_t(i * n1 + j)]; }
+		auto&& big = R({0, n0}, {1, 1 + n1}); multi::array<C, 2> small({n0, n1}, OUTFILL); op((std::string("huge-stride:") + KN[kind]).c_str());
+		auto cmp = [&](auto const& got) { double err = 0; for(L i = 0; i < n0; ++i) for(L j = 0; j < n1; ++j) err = std::max(err, std::abs(got[i][j] - y[std::size_t(i * n1 + j)])); if(err > tol) violation(K + "wrong", "DFT over a view whose rows are " + std::to_string(cols) + " elements apart differs from the direct DFT by " + std::to_string(err)); };
+		if(kind == 0) { fftw::dft(which, big, small, dir); cmp(small); for(L i = 0; i < n0; ++i) for(L j = 0; j < n1; ++j) if(!(guard(i, 1 + j) == x[std::size_t(i * n1 + j)])) { violation(K + "input-modified", "the input view was modified"); break; } }
+		else if(kind == 1) { multi::array<C, 2> in({n0, n1}); for(L i = 0; i < n0; ++i) for(L j = 0; j < n1; ++j) { in[i][j] = x[std::size_t(i * n1 + j)]; guard(i, 1 + j) = OUTFILL; } fftw::dft(which, in, big, dir); cmp(big); }
+		else { fftw::dft(which, big, dir); cmp(big); }
+		for(L i = 0; i < n0; ++i) if(!(guard(i, 0) == POISON) || !(guard(i, n1 + 1) == POISON)) { violation(K + "outside-view-written", "an element next to the view was written"); break; }
+		nontrivial(true); }
+	munmap(mp, total);
+}
+#endif
+
 int main(int argc, char** argv) {
 	return main_loop(argc, argv, [&](Case& c) {
 		static bool init = false; if(!init) { init = true; auto& a = st().args; for(std::size_t i = 0; i + 1 < a.size(); ++i) if(a[i] == "--maxext") MAXEXT = std::atoi(a[i + 1].c_str()); }
+#if C15_D == 2
+		if(c.k % 40 == 11) { huge_stride_probe(c.rng); return; }
+#endif
 		Rng& g = c.rng; std::vector<L> n; for(int d = 0; d < D; ++d) n.push_back(g.in(1, d == D - 1 ? MAXEXT + 1 : MAXEXT)); if(g.chance(1, 5)) n[std::size_t(g.below(D))] = 1;
 		std::array<bool, std::size_t(D)> which{}; std::string ws; for(int d = 0; d < D; ++d) { which[std::size_t(d)] = g.chance(1, 2); ws += which[std::size_t(d)] ? "T" : "F"; }
 		int const sign = g.chance(1, 2) ? +1 : -1; int const li = int(g.below(NLK)), lo = int(g.below(NLK)); int const mode = int(g.below(6));  // 5: the lazy range fft::dft(which, in, dir) of adaptors/fft.hpp constructed into / assigned to an owning array; 0,1 out-of-place; 2 in-place overload; 3 forward then backward; 4 a plan made for one pair of arrays executed on another pair of the same layouts
